@@ -192,7 +192,7 @@ func (f *Frame) assumeParam(prm *ssa.Parameter, v Val) {
 				s.assume("receivers are non-nil")
 				// type invariant of the receiver
 				ctx := &EvalCtx{f: f, env: map[string]Val{}, heap: s.plainView(s.entry), old: s.plainView(s.entry), bound: map[string]Val{}, pkg: pkgNameOf(f.fn), where: "receiver type invariant", fresh: s.alloc0}
-				if _, isPtr := prm.Type().Underlying().(*types.Pointer); isPtr {
+				if _, isPtr := prm.Type().Underlying().(*types.Pointer); isPtr && !s.C.Establishes {
 					if _, named := prm.Type().Underlying().(*types.Pointer).Elem().(*types.Named); named {
 						s.fact(ctx.typeInv(v))
 					}
@@ -265,6 +265,11 @@ func (f *Frame) assumeTypeInvariants() {
 			panic(evalErr{"type invariant for unknown type " + k})
 		}
 		pt := types.NewPointer(o.Type())
+		if s.C.Establishes {
+			if recv := f.fn.Signature.Recv(); recv != nil && types.Identical(recv.Type(), pt) {
+				continue // this function is the rep check of that type
+			}
+		}
 		ctx := &EvalCtx{f: f, env: map[string]Val{}, heap: s.plainView(s.entry), old: s.plainView(s.entry), bound: map[string]Val{}, pkg: tc.Pkg, where: "type invariant " + k}
 		f.hypMode = true
 		inv := ctx.typeInv(S{"r", pt})
